@@ -6,7 +6,8 @@ import math
 from functools import lru_cache
 from pathlib import Path
 
-REPO = Path('/repo')
+import os
+REPO = Path(os.environ.get('VERIF_REPO', '/repo'))
 EX = REPO / 'gnpy' / 'example-data'
 TD = REPO / 'tests' / 'data'
 INF = 2_000_000_000
